@@ -134,7 +134,21 @@ struct OneResult {
 }
 
 fn run_entry(prop: &str, scn: &Scenario, n: u64, verif_seed: u64, workers: usize, deadline: Instant, agg: &mut Agg, known: &[KnownFinding]) {
-    let next = Arc::new(AtomicU64::new(0));
+    // Runs are executed in slices of the index range and merged slice by slice (in index
+    // order, so the outcome does not depend on the worker count): a run's result carries its
+    // decision tape and state samples, and hundreds of thousands of them do not fit in memory.
+    const SLICE: u64 = 8192;
+    let mut slice_start = 0u64;
+    while slice_start < n && Instant::now() <= deadline {
+        let slice_end = (slice_start + SLICE).min(n);
+        run_slice(prop, scn, slice_start, slice_end, verif_seed, workers, deadline, agg, known);
+        slice_start = slice_end;
+    }
+}
+
+#[allow(clippy::too_many_arguments)]
+fn run_slice(prop: &str, scn: &Scenario, from: u64, n: u64, verif_seed: u64, workers: usize, deadline: Instant, agg: &mut Agg, known: &[KnownFinding]) {
+    let next = Arc::new(AtomicU64::new(from));
     let results: Arc<Mutex<Vec<OneResult>>> = Arc::new(Mutex::new(Vec::new()));
     let want_samples = agg.samples.len() < 3;
     std::thread::scope(|sc| {
